@@ -778,6 +778,11 @@ def check_serde_with_pairs(ctx, P, rule="E9.serde"):
             # the deserializer is a direct delegation (no hand-rolled visitor)
             r = strip_sites(evaluate(df).ret)
             ctx.ob(rule + ".blsserde", "%s/deserialize_%s/direct" % (im, what), r.op == "call" and B.peel(r.a[1][0]).op == "param", "deserialize_%s is exactly a call to the associated type's deserializer" % what, where=where(df))
+            # neither side talks to the format itself: a direct Serializer / Deserializer method (serialize_bytes,
+            # serialize_tuple, deserialize_seq ...) on one side is a second wire form the other side does not read
+            for side, g, tr in (("serialize", sf, "Serializer"), ("deserialize", df, "Deserializer")):
+                raw = sorted({t["callee"].get("name") for bb, t in g.calls() if t.get("callee") and t["callee"].get("trait") == tr and t["callee"].get("name") != "is_human_readable"})
+                ctx.ob(rule + ".blsserde", "%s/%s_%s/no-raw-format-calls" % (im, side, what), not raw, "%s_%s drives the format only through the associated type's own %s impl (direct %s calls: %s)" % (side, what, "Serialize" if side == "serialize" else "Deserialize", tr, raw), where=where(g))
         else:
             ctx.ob(rule + ".blsserde", "%s/%s" % (im, what), False, "BlsSerde impl has only one of serialize_%s / deserialize_%s" % (what, what))
     ctx.floor(rule + ".blsserde", "BlsSerde method pairs", len(impls), 10)
